@@ -251,9 +251,12 @@ type readFail struct {
 type savePlan struct {
 	every bool
 	at    int // -1: never
+	pop   int // PopCheckpoint is called before reading message k only when k%pop == 0 (0 = 1: always)
 }
 
 func (p savePlan) want(k int) bool { return p.every || p.at == k }
+
+func (p savePlan) popAt(k int) bool { return p.pop <= 1 || k%p.pop == 0 }
 
 func parseSave(s string) (savePlan, error) {
 	switch {
@@ -261,6 +264,14 @@ func parseSave(s string) (savePlan, error) {
 		return savePlan{at: -1}, nil
 	case s == "every":
 		return savePlan{every: true, at: -1}, nil
+	case strings.HasPrefix(s, "every+pop:"):
+		// saves requested before every message, but the caller only comes to collect the
+		// checkpoint every pop-th message (it is busy with the messages in between)
+		var i int
+		if _, err := fmt.Sscanf(s, "every+pop:%d", &i); err != nil || i < 2 {
+			return savePlan{}, fmt.Errorf("bad save plan %q", s)
+		}
+		return savePlan{every: true, at: -1, pop: i}, nil
 	case strings.HasPrefix(s, "at:"):
 		var i int
 		if _, err := fmt.Sscanf(s, "at:%d", &i); err != nil {
@@ -291,8 +302,10 @@ func (st *stream) readRange(rctx *wire.ReadContext, k0, last int, plan savePlan,
 		if plan.want(k) {
 			rctx.WantSave()
 		}
-		if cp := rctx.PopCheckpoint(); cp != nil && onPop != nil {
-			onPop(k, cp)
+		if plan.popAt(k) {
+			if cp := rctx.PopCheckpoint(); cp != nil && onPop != nil {
+				onPop(k, cp)
+			}
 		}
 		err := rctx.ReadMessage(got)
 		reads++
